@@ -84,7 +84,7 @@ Print Assumptions c18_hist_member.
 (* every period of a histogram's life starts as the theorems above require *)
 Theorem c18_hist_all_periods : forall sampled ps, Forall obs_ok ps ->
   Forall2 (good_report sampled) ps (periods sampled newHist ps).
-Proof. exact (fun sampled ps => periods_good sampled ps newHist newHist_start). Qed.
+Proof. exact periods_good_newHist. Qed.
 Print Assumptions c18_hist_all_periods.
 
 (* ---- counters ---- *)
